@@ -59,29 +59,26 @@ def includesKey (tr : List Nat) (key : Nat) : Bool :=
       else index % 2 == 1
   | _, _ => false
 
-/-! ## GetTokenRangesForInstance -/
+/-! ## GetTokenRangesForInstance (code after fix 9068690: explicit `haveRangeEnd` flag) -/
 
 /-- The backward loop `for i := len(subringTokens)-1; i > 0; i--`. The list argument is
 `subringTokens[len-1], …, subringTokens[1]` (in that order), each with the flag
-`info.InstanceID == instanceID`. Returns the final `rangeEnd` and the values appended to `ranges`.
-`rangeEnd = 0` is the code's "looking for the end of the next range" sentinel. -/
-def walkLoop : Nat → List (Nat × Bool) → Nat × List Nat
-  | rangeEnd, [] => (rangeEnd, [])
-  | rangeEnd, (token, mine) :: rest =>
-    if rangeEnd = 0 then
-      if mine then walkLoop (pred32 token) rest else walkLoop 0 rest
-    else
-      if mine then walkLoop rangeEnd rest
+`info.InstanceID == instanceID`. The state is `some rangeEnd` iff `haveRangeEnd`. Returns the final
+state and the values appended to `ranges`. -/
+def walkLoop : Option Nat → List (Nat × Bool) → Option Nat × List Nat
+  | re, [] => (re, [])
+  | none, (token, mine) :: rest =>
+      if mine then walkLoop (some (pred32 token)) rest else walkLoop none rest
+  | some rangeEnd, (token, mine) :: rest =>
+      if mine then walkLoop (some rangeEnd) rest
       else
-        let r := walkLoop 0 rest
+        let r := walkLoop none rest
         (r.1, rangeEnd :: token :: r.2)
 
 /-- the statements after the loop ("finally look at the first token again"). -/
-def walkFinish (first : Nat × Bool) (rangeEnd : Nat) : List Nat :=
-  if rangeEnd = 0 then
-    if first.2 ∧ first.1 ≠ 0 then [pred32 first.1, 0] else []
-  else
-    if first.2 then [rangeEnd, 0] else [rangeEnd, first.1]
+def walkFinish (first : Nat × Bool) : Option Nat → List Nat
+  | none => if first.2 ∧ first.1 ≠ 0 then [pred32 first.1, 0] else []
+  | some rangeEnd => if first.2 then [rangeEnd, 0] else [rangeEnd, first.1]
 
 /-- `GetTokenRangesForInstance` after the error checks: `zt` = the zone's sorted tokens, each with
 "owned by the instance". -/
@@ -89,31 +86,37 @@ def instRangesOf (zt : List (Nat × Bool)) : List Nat :=
   match zt with
   | [] => []
   | first :: rest =>
-    let r := walkLoop (if first.2 then maxU32 else 0) rest.reverse
+    let r := walkLoop (if first.2 then some maxU32 else none) rest.reverse
     sortNat (r.2 ++ walkFinish first r.1)
 
-/-- the same function with the sentinel replaced by an explicit flag (`Option`): the model of the
-SUGGESTED FIX, used to state what the code should compute. -/
-def walkLoopF : Option Nat → List (Nat × Bool) → Option Nat × List Nat
-  | re, [] => (re, [])
-  | none, (token, mine) :: rest =>
-      if mine then walkLoopF (some (pred32 token)) rest else walkLoopF none rest
-  | some rangeEnd, (token, mine) :: rest =>
-      if mine then walkLoopF (some rangeEnd) rest
+/-! ### history: the walk BEFORE fix 9068690 (`rangeEnd == 0` meant "no range end")
+
+Kept only so that the facts about the fixed defect (`Props/C14.lean`, last section) remain checked
+statements. Not on the executable path of the oracle. -/
+
+def walkLoopOld : Nat → List (Nat × Bool) → Nat × List Nat
+  | rangeEnd, [] => (rangeEnd, [])
+  | rangeEnd, (token, mine) :: rest =>
+    if rangeEnd = 0 then
+      if mine then walkLoopOld (pred32 token) rest else walkLoopOld 0 rest
+    else
+      if mine then walkLoopOld rangeEnd rest
       else
-        let r := walkLoopF none rest
+        let r := walkLoopOld 0 rest
         (r.1, rangeEnd :: token :: r.2)
 
-def walkFinishF (first : Nat × Bool) : Option Nat → List Nat
-  | none => if first.2 ∧ first.1 ≠ 0 then [pred32 first.1, 0] else []
-  | some rangeEnd => if first.2 then [rangeEnd, 0] else [rangeEnd, first.1]
+def walkFinishOld (first : Nat × Bool) (rangeEnd : Nat) : List Nat :=
+  if rangeEnd = 0 then
+    if first.2 ∧ first.1 ≠ 0 then [pred32 first.1, 0] else []
+  else
+    if first.2 then [rangeEnd, 0] else [rangeEnd, first.1]
 
-def instRangesOfF (zt : List (Nat × Bool)) : List Nat :=
+def instRangesOfOld (zt : List (Nat × Bool)) : List Nat :=
   match zt with
   | [] => []
   | first :: rest =>
-    let r := walkLoopF (if first.2 then some maxU32 else none) rest.reverse
-    sortNat (r.2 ++ walkFinishF first r.1)
+    let r := walkLoopOld (if first.2 then maxU32 else 0) rest.reverse
+    sortNat (r.2 ++ walkFinishOld first r.1)
 
 /-- distinct zones of the descriptor (`len(r.ringTokensByZone)`: zones of token-less instances count). -/
 def zonesOf (d : Desc) : List String := (d.map (·.zone)).eraseDups
@@ -124,8 +127,8 @@ def tokenInsts (d : Desc) : List (Nat × Inst) :=
 
 def zoneTokens (d : Desc) (zone : String) : List (Nat × Inst) := tokenInsts (d.filter (·.zone == zone))
 
-/-- `GetTokenRangesForInstance` with the walk as a parameter (current code: `instRangesOf`;
-suggested fix: `instRangesOfF`). -/
+/-- `GetTokenRangesForInstance` with the walk as a parameter (the code: `instRangesOf`;
+before fix 9068690: `instRangesOfOld`). -/
 def rangesForInstanceWith (walk : List (Nat × Bool) → List Nat) (d : Desc) (zoneAware : Bool) (rf : Nat)
     (id : String) : Except Err (List Nat) :=
   match d.get? id with
@@ -138,10 +141,10 @@ def rangesForInstanceWith (walk : List (Nat × Bool) → List Nat) (d : Desc) (z
       if zt.isEmpty then .error .noTokensForZone
       else .ok (walk (zt.map fun p => (p.1, p.2.id == id)))
 
-/-- the code as it is (sentinel `rangeEnd == 0`). -/
+/-- `Ring.GetTokenRangesForInstance` -/
 def rangesForInstance := rangesForInstanceWith instRangesOf
-/-- the code with the suggested fix (explicit flag). -/
-def rangesForInstanceF := rangesForInstanceWith instRangesOfF
+/-- the function before fix 9068690 (history only) -/
+def rangesForInstanceOld := rangesForInstanceWith instRangesOfOld
 
 /-- owner of the first token strictly after `key` (cyclically) in a token-sorted list. -/
 def succOwner {α} (to : List (Nat × α)) (key : Nat) : Option α :=
